@@ -330,6 +330,7 @@ def range_cases(rng, tier, nvalid, nbad, sweep):
     for s in ['1,%d' % M, '%d,%d-%d' % (M, M - 4, M - 3), '%d-%d,%d' % (M - 4, M - 3, M), '%d-%d,%d-%d' % (M - 9, M - 3, M - 5, M),
               '%d-%dx3,%d-%dx2' % (M - 9, M, M - 8, M), '5,%d' % (-M - 1), '%d-%d,%d-%d' % (-M + 5, -M, -M + 8, -M - 1),
               '%d-%dx-3,%d' % (-M + 7, -M - 1, -M), '%d-%d' % (M, M - 6), '%d-%d' % (-M - 1, -M + 6),
+              '1-10x%d' % M, '10-1x%d' % M, '-5-5x%d,7' % M, '1-10x%d' % (M - 7), '7,1-10x%d' % M, '1-10x-%d' % M, '3-3x%d' % M, '0-%dx%d' % (M - 1, M - 1),
               '5-5:3', '1-3,7-7:2,10', '-4--4:1', '9-9y2', '1-1x5,1-1:5,1-1y5', '3,3-3:7', '0-0:1']:
         out.append(case('fs', [s], s, 'edge', dict(s=s, valid=True)))
     return out
@@ -541,6 +542,19 @@ def c09_big_stride_cases(rng, n, add):
         stride = rng.choice([4000000000, 1 << 32, 1 << 32, (1 << 32) + 1, (1 << 33) - 1, 3000000007, 1 << 40, rng.randint(1 << 31, 1 << 34)])
         a = rng.choice([0, 0, 5, -3, rng.randint(-10 ** 6, 10 ** 6)])
         k = rng.randint(3, 5)
+        if rng.random() < 0.2:
+            # span + stride reaches 2^63 although span and stride each fit: two frames 2^62 apart or more,
+            # three frames more than 3.07e18 apart
+            if rng.random() < 0.5:
+                stride, k, a = rng.choice([1 << 62, 7 * 10 ** 18, (1 << 62) + 12345]), 2, rng.choice([0, -3 * 10 ** 18, 5])
+            else:
+                stride, k, a = rng.choice([31 * 10 ** 17, 3074457345618258603]), 3, rng.choice([-4 * 10 ** 18, -(1 << 62)])
+            l = [a + i * stride for i in range(k)] + [rng.choice([5, 7, -9])]
+            if rng.random() < 0.3:
+                l.reverse()
+            if all(-(1 << 63) <= x < (1 << 63) for x in l) and len(set(l)) == len(l):
+                add(l, rng.random() < 0.3, rng.choice([0, 0, 2, 6]), 'big-stride')
+            continue
         l = [a + i * stride for i in range(k)]
         extra = [a + (k + rng.randint(0, 2)) * stride, a + rng.randint(1, 9), a - stride, a + (k + 1) * stride + 1]
         for x in rng.sample(extra, rng.randint(0, 3)):
@@ -1097,7 +1111,17 @@ def file_set(rng):
         d = rng.choice(LIST_DIRS)
         for _ in range(rng.randint(1, 3)):
             k = rng.random()
-            if k < 0.7:
+            if k < 0.06:
+                # twins whose names differ only in where the frame sits around a dotted part:
+                # basename + extension read the same ("scene.main" + ".exr" / "scene" + ".main.exr")
+                b, part, e = rng.choice(['scene', 'x', 'beauty_', 'a.b']), rng.choice(['main', 'left', 'y', 'v2']), rng.choice(['.exr', '.z', '.tar.gz'])
+                w = rng.choice([1, 2, 4])
+                shapes.add('split-twins')
+                for v in rng.sample(range(1, 30), rng.randint(1, 3)):
+                    paths.append((d, '%s.%s%s%s' % (b, part, str(v).rjust(w, '0'), e)))
+                for v in rng.sample(range(1, 30), rng.randint(1, 3)):
+                    paths.append((d, '%s%s.%s%s' % (b, str(v).rjust(w, '0'), part, e)))
+            elif k < 0.7:
                 b = rng.choice(LIST_BASES)
                 e = rng.choice(LIST_EXTS)
                 fts, sh = frame_texts(rng)
@@ -1295,7 +1319,9 @@ def disk_dir(rng, n):
     sp = rng.randrange(6)
     rel = cdir + '/d'
     readable = 0 if rng.random() < 0.05 else 1
-    via = readable and rng.random() < 0.15
+    if not readable and rng.random() < 0.5:
+        readable = 2          # the path exists but is a regular file: it opens, and cannot be read as a directory
+    via = readable == 1 and rng.random() < 0.15
     if via:
         # the directory is reached through a relative symlink and its own links are relative ("../x")
         rel = 'v%d/alt/x/d' % n
@@ -1311,11 +1337,15 @@ def c06_cases(rng, tier):
         opts = [o for o in (OPT_SINGLE, OPT_HIDDEN, rng.choice([OPT_H1, OPT_H4])) if rng.random() < 0.5]
         if rng.random() < 0.15:
             opts = ['LISTFILES']
-        out.append(case('disk', [','.join(map(str, [OPT_SINGLE] if opts == ['LISTFILES'] else opts)), path, readable] + ents,
-                        'path=%r opts=%s readable=%d entries=%r' % (path, opts, readable, ents),
-                        sp + (':dangling' if dangling else '') + (':unreadable' if not readable else ''),
-                        dict(path=path, ents=ents, opts=[OPT_SINGLE] if opts == ['LISTFILES'] else opts, readable=readable, dangling=dangling),
-                        nontrivial=len(ents) > 1))
+        o_ = ','.join(map(str, [OPT_SINGLE] if opts == ['LISTFILES'] else opts))
+        c_ = case('disk', [o_, path, readable] + ents,
+                  'path=%r opts=%s readable=%d entries=%r' % (path, opts, readable, ents),
+                  sp + (':dangling' if dangling else '') + (':unreadable' if readable != 1 else '') + (':a-file' if readable == 2 else ''),
+                  dict(path=path, ents=ents, opts=[OPT_SINGLE] if opts == ['LISTFILES'] else opts, readable=1 if readable == 1 else 0, dangling=dangling),
+                  nontrivial=len(ents) > 1)
+        if readable == 2:
+            c_['model_line'] = line('disk', o_, path, 0, *ents)      # for the model both are "cannot be read"
+        out.append(c_)
     return out
 
 
